@@ -489,6 +489,9 @@ func vaCheck(w *vaWorld, eng *GruleEngine, res vaResult, first int, preCancelled
 				verif.Assert("C06:each-active-rule-evaluated-exactly-once-per-cycle", c.wCount[r] == 1)
 				verif.Assert("C02:no-active-rule-overlooked-in-a-cycle", c.wCount[r] == 1)
 				verif.Assert("C03:every-active-rule-takes-part-in-conflict-resolution", c.wCount[r] == 1)
+				// C10: Retract affects exactly the named rule, Complete nothing but the run's end: every rule that was
+				// neither removed nor retracted BY ITS EXACT NAME still takes part (an unknown or case-variant name retracts nothing)
+				verif.Assert("C10:only-the-named-rule-is-retracted", c.wCount[r] == 1)
 				if w.nListen > 0 {
 					verif.Assert("C06:each-active-rule-reported-exactly-once-per-cycle", c.ev[r] == 1)
 				}
